@@ -27,7 +27,7 @@ ASSUME = ["the in-process hook calls the same lex/parse/check/format entry point
           "a process that is still running after 120 s on <= 64 KiB of input is a hang"]
 BATCH = 120
 FLOOR = {"quick": 150, "thorough": 400}
-BUDGET = {"quick": 45, "thorough": 600}
+BUDGET = {"quick": 35, "thorough": 600}
 
 CLI_PERCENT = 2.0
 CLI_TIMEOUT = 30
